@@ -64,6 +64,7 @@ Variables (w : world) (modes : nat -> imode).
 Lemma ok_parts : single_test sh = TIsNone /\ session_test sh = TIsNone /\ single_locked sh = true /\ close_clears sh = true.
 Proof.
   pose proof Hok as H. unfold shape_ok in H.
+  apply andb_true_iff in H. destruct H as [H _].
   apply andb_true_iff in H. destruct H as [H H4].
   apply andb_true_iff in H. destruct H as [H H3].
   apply andb_true_iff in H. destruct H as [H1 H2].
@@ -129,10 +130,10 @@ Proof.
   - left. exists t, e. split; reflexivity.
 Qed.
 
-Lemma step_stepR e s : stepR s e (fst (step_ev sh w modes e s)) (snd (step_ev sh w modes e s)).
+Lemma step_stepR e s : is_admin e = false -> stepR s e (fst (step_ev sh w modes e s)) (snd (step_ev sh w modes e s)).
 Proof.
-  destruct ok_parts as (H1 & H2 & H3 & H4).
-  destruct e as [k c|k]; cbn [step_ev].
+  intros Hadm. destruct ok_parts as (H1 & H2 & H3 & H4).
+  destruct e as [k c|k how|c i f|i]; cbn [step_ev]; [| |discriminate|discriminate].
   - unfold get_instance. destruct (modes c) eqn:Hm.
     + unfold get_single. rewrite H1. destruct (singles s c) as [a|] eqn:Hs; cbn [absent].
       * cbn [fst snd]. apply R_hit. left. auto.
@@ -154,10 +155,13 @@ Qed.
 Lemma reach_ind' (P : st -> trace -> Prop) :
   P st0 [] ->
   (forall s tr e s' o, reach s tr -> P s tr -> stepR s e s' o -> P s' (tr ++ [(e, o)])) ->
+  (forall s tr e, reach s tr -> P s tr -> is_admin e = true -> P s (tr ++ [(e, Admin)])) ->
   forall s tr, reach s tr -> P s tr.
 Proof.
-  intros H0 HS s tr H. induction H as [|s tr e H IH]; [exact H0|].
-  eapply HS; [exact H|exact IH|apply step_stepR].
+  intros H0 HS HA s tr H. induction H as [|s tr e H IH]; [exact H0|].
+  destruct (is_admin e) eqn:Hadm.
+  - destruct e; try discriminate; cbn [step_ev fst snd]; apply HA; auto.
+  - eapply HS; [exact H|exact IH|apply step_stepR; exact Hadm].
 Qed.
 
 Lemma set1_same f c a : set1 f c a c = Some a.
@@ -285,6 +289,12 @@ Proof.
         -- destruct (B4 _ _ _ _ H) as (k0 & a0 & Hin & Hid).
            exists k0, a0. split; [apply in_or_app; auto|assumption].
         -- injection H as Hc Ho. subst c0. rewrite Ho in Hw. discriminate.
+  - intros s tr ev Hr (B1 & B2 & B3 & B4) Hadm. split; [|split; [|split]].
+    + intros k0 c a H. apply in_snoc in H. destruct H as [H|H]; [eauto|discriminate].
+    + intros c a H. destruct (B2 _ _ H) as [Hm [k0 H0]]. split; [assumption|]. exists k0. apply in_or_app. auto.
+    + intros k0 c a H. destruct (B3 _ _ _ H). split; [assumption|]. apply in_or_app. auto.
+    + intros n c t e H. destruct (B4 _ _ _ _ H) as (k0 & a & Hin & Hid).
+      exists k0, a. split; [apply in_or_app; auto|assumption].
 Qed.
 
 (* ---------- single ---------- *)
@@ -308,6 +318,8 @@ Proof.
         -- destruct Hm as (Hs1 & Hs2). rewrite Hs1. assumption.
       * inversion Hin; subst. rewrite Hm0 in Hm. destruct Hm as (Hn & Hs1 & Hs2). rewrite Hs1. apply set1_same.
     + destruct Hin as [Hin|Hin]; [|discriminate]. rewrite Hs1. eauto.
+  - intros s tr ev Hr IH Hadm k0 c0 a0 Hm0 Hin. apply in_snoc in Hin.
+    destruct Hin as [Hin|Hin]; [eauto|discriminate].
 Qed.
 
 (* ---------- session ---------- *)
@@ -346,6 +358,9 @@ Proof.
            ++ rewrite set2_other by auto. assumption.
         -- destruct Hm as (Hs1 & Hs2). rewrite Hs2. assumption.
       * rewrite Hs2. assumption.
+  - intros s tr ev Hr IH Hadm t1 t2 k0 c0 a0 Hdec Hm0 Hnc.
+    apply snoc_split in Hdec. destruct Hdec as [(-> & Hx & ->)|(t2' & -> & ->)]; [discriminate|].
+    exact (IH _ _ _ _ _ eq_refl Hm0 (no_close_snoc _ _ _ Hnc)).
 Qed.
 
 Lemma session_owner s tr : reach s tr ->
@@ -399,6 +414,11 @@ Proof.
       destruct Hdec as [(-> & Hx & ->)|(t2' & -> & ->)]; [discriminate|].
       destruct (IH _ _ _ Hslot _ _ _ _ eq_refl Hid) as [-> Hnc]. split; [reflexivity|].
       intros how' o' Hin. apply in_snoc in Hin. destruct Hin as [Hin|Hin]; [exact (Hnc _ _ Hin)|discriminate].
+  - intros s tr ev Hr IH0 Hadm Hr' k' c0 b Hslot t1 t2 k0 a0 Hdec Hid.
+    apply snoc_split in Hdec. destruct Hdec as [(-> & Hx & ->)|(t2' & -> & ->)]; [discriminate|].
+    destruct (IH0 Hr _ _ _ Hslot _ _ _ _ eq_refl Hid) as [-> Hnc]. split; [reflexivity|].
+    intros how' o' Hin. apply in_snoc in Hin. destruct Hin as [Hin|Hin]; [exact (Hnc _ _ Hin)|].
+    injection Hin as He _. subst ev. discriminate.
 Qed.
 
 (* ---------- the sequential theorems over reachable (state, trace) ---------- *)
@@ -454,6 +474,8 @@ Proof.
       split; [split|]; try (intros Hid; contradiction).
       intros [-> Hnc]. pose proof (session_live _ _ Hr _ _ _ _ _ eq_refl Hm0 Hnc) as Hl'.
       rewrite Hm0 in Hm. destruct Hm as (Hn & _). congruence.
+  - intros s tr ev Hr IH Hadm t1 t2 t3 k0 k0' c0 a0 b0 Hdec Hm0.
+    apply snoc_split2 in Hdec. destruct Hdec as [(-> & Hx & ->)|(t3' & -> & ->)]; [discriminate|eauto].
 Qed.
 
 Lemma r_percall_fresh s tr : reach s tr ->
@@ -472,6 +494,8 @@ Proof.
     + destruct Hhit as [[H _]|[H _]]; congruence.
     + assert (Hin : In (srv k0 c0 a0) (t1 ++ srv k0 c0 a0 :: t2)) by (apply in_or_app; right; left; reflexivity).
       destruct (B1 _ _ _ Hin) as (Hlt & _). cbn [fresh iid]. lia.
+  - intros s tr ev Hr IH Hadm t1 t2 t3 k0 k0' c0 a0 b0 Hdec Hm0.
+    apply snoc_split2 in Hdec. destruct Hdec as [(-> & Hx & ->)|(t3' & -> & ->)]; [discriminate|eauto].
 Qed.
 
 (* creator invocations are counted exactly: failures, and (percall) one per call *)
@@ -494,6 +518,11 @@ Proof.
       split; [lia|]. intros H. rewrite IH2 by assumption. reflexivity.
     + rewrite Hl, !filter_snoc_len. cbn [is_failed_call is_call fst snd]. rewrite Hw. cbn [negb]. rewrite andb_true_r.
       split; [lia|]. intros H. rewrite IH2 by assumption. reflexivity.
+  - intros s tr ev Hr IH Hadm c0. destruct (IH c0) as [IH1 IH2].
+    unfold failed_invocations, failed_calls, invocations, calls_on in *.
+    rewrite !filter_snoc_len. destruct ev; cbn [is_failed_call is_call]; try discriminate.
+    + split; [lia|intros H; rewrite IH2 by assumption; lia].
+    + split; [lia|intros H; rewrite IH2 by assumption; lia].
 Qed.
 End Seq.
 
@@ -692,8 +721,8 @@ Proof.
 Qed.
 End Conc.
 
-Lemma code_shape_of_bools a b c d :
-  shape_ok (mk_shape a b c d) = ltest_is_none a && ltest_is_none b && c && d.
+Lemma code_shape_of_bools a b c d e :
+  shape_ok (mk_shape a b c d e) = ltest_is_none a && ltest_is_none b && c && d && e.
 Proof. reflexivity. Qed.
 
 (* ---------- the excluded shapes are really wrong ---------- *)
